@@ -28,7 +28,7 @@ impl IntoParallelSource for Range<u64> {
     type Iter = Range<u64>;
 
     fn generate_iterator(self, index: CoordUInt, peers: CoordUInt) -> Self::Iter {
-        let n = self.end - self.start;
+        let n = self.end.saturating_sub(self.start);
         let chunk_size = (n.saturating_add(peers - 1)) / peers;
         let start = self.start.saturating_add(index * chunk_size);
         let end = (start.saturating_add(chunk_size))
@@ -47,7 +47,7 @@ macro_rules! impl_into_parallel_source_range {
             fn generate_iterator(self, index: CoordUInt, peers: CoordUInt) -> Self::Iter {
                 let index: i64 = index.try_into().unwrap();
                 let peers: i64 = peers.try_into().unwrap();
-                let n = self.end as i64 - self.start as i64;
+                let n = (self.end as i64).saturating_sub(self.start as i64).max(0);
                 let chunk_size = (n.saturating_add(peers - 1)) / peers;
                 let start = (self.start as i64).saturating_add(index * chunk_size);
                 let end = (start.saturating_add(chunk_size))
